@@ -29,6 +29,7 @@ PROPS = {
  'C09': dict(scope=None, bridge=sigs(['dbsize', 'keys', 'scan', 'exists', 'type']), theorems=[]),
  'C10': dict(scope=set(F['pubsub'] + ['ping']), bridge=sigs(F['pubsub']) + ['pubsubAllowed_eq', 'msg_BAD_COMMAND_IN_PUBSUB_MSG_eq'],
              theorems=[]),
+ 'C11': dict(scope=None, bridge=sigs(['blpop', 'brpop', 'brpoplpush', 'rpush', 'lpush', 'move', 'swapdb']) + ['const_Timeout_eq'], theorems=[]),
  'C13': dict(scope=None, bridge=sigs(['select', 'move', 'swapdb', 'flushall', 'flushdb', 'dbsize', 'echo', 'ping', 'time', 'save',
                                       'bgsave', 'lastsave']) + ['const_DbIndex_eq'], theorems=[]),
  'C15': dict(scope=set(F['scan']), bridge=sigs(F['scan']) + ['scanDefaultCount_eq', 'msg_INVALID_CURSOR_MSG_eq',
